@@ -82,10 +82,14 @@ CLAIMS["C06"] = dict(
 CLAIMS["C09"] = dict(
     text="Manual-memory opcodes (Alloc, Free, LoadMem(I), StoreMem(I)) run for one step against an executable model from a manual heap with a live and a freed "
          "buffer, all operand registers arbitrary Values (negative, huge, non-int, null): legal accesses behave like an independent array, everything else is an "
-         "error and changes nothing, and the charge is exactly 8 bytes per live slot; every 2-operation history of the real ManualHeap API agrees with the model.",
-    design_ref="DESIGN.md §2 C09",
-    note=SHELL_NOTE + " Out: byte buffers (stdlib/bytes.rs natives), histories longer than 2 from the empty heap except through the single-step obligations.",
-    technique="Kani/CBMC bounded model checking of the manual-memory handlers and ManualHeap API against an executable model")
+         "error and changes nothing (including the allocator's free list), and the charge is exactly 8 bytes per live slot; every 2-operation history of the real "
+         "ManualHeap API agrees with the model. Byte buffers: stdlib/bytes.rs re-instantiated; every 1/2/4-byte integer read and write (LE/BE, signed/unsigned), "
+         "fill, copy (incl. overlapping), size, free and double free, with every argument an arbitrary Value, against a byte-array model of two live buffers "
+         "and a freed handle.",
+    design_ref="DESIGN.md §2 C09, §4a",
+    note=SHELL_NOTE + " Out: 64-bit and float byte accessors, from_string/decode/find/write_string/resize/clone/equals, buffers longer than 4 bytes, "
+         "histories longer than 2 from the empty heap except through the single-step obligations. Known finding: Free ignores negative handles.",
+    technique="Kani/CBMC bounded model checking of the manual-memory handlers, ManualHeap API and byte-buffer natives against executable models")
 CLAIMS["C10"] = dict(
     text="Budget arithmetic with a symbolic near-limit state (0..64 bytes of headroom): alloc_string, manual_alloc, alloc_array, check_element_request for every "
          "argument value: admitted iff the charge fits, charged exactly, otherwise OutOfMemory / InvalidAllocationSize with nothing charged and no overflow; "
